@@ -41,6 +41,43 @@ FAMILIES = {
     },
 }
 
+def solve_stats(c, i):
+    res = [l.split()[1] for l in i if l.startswith("result ")]
+    return {
+        "ok": res.count("ok"), "unsat": res.count("unsat"), "cancelled": res.count("cancelled"), "panic": res.count("panic"),
+        "learnt_clauses": sum(l.startswith("t learnt") for l in i),
+        "cases_with_learning": int(any(l.startswith("t learnt") for l in i)),
+        "cases_with_2plus_learnt": int(sum(l.startswith("t learnt") for l in i) >= 2),
+        "restarts": sum(l == "t clear" for l in i),
+        "unions": sum(l.startswith("union ") for l in c),
+        "locks": sum((" lock " in l and " lock - " not in l) for l in c if l.startswith("pkg ")),
+        "favored": sum((" fav " in l and " fav - " not in l) for l in c if l.startswith("pkg ")),
+        "excluded": sum((" excl hint" not in l) for l in c if l.startswith("pkg ")),
+        "hinted_pkgs": sum((" hint none" not in l) for l in c if l.startswith("pkg ")),
+        "unknown_deps": sum(" unknown " in l for l in c if l.startswith("solv ")),
+        "soft": sum(len(l.split(" soft")[1].split()) for l in c if l.startswith("problem ")),
+        "solvables": sum(l.startswith("solv ") for l in c),
+        "traces_validated": sum(l.startswith("result ") for l in i),
+    }
+
+
+SOLVE_FAMILY = {
+    "feed_impl": True,
+    "nontrivial": lambda c, i: any(l.startswith("t learnt") for l in i) or any(l.startswith("result unsat") for l in i)
+    or sum(l.startswith("t assign") for l in i) >= 4,
+    "stats": solve_stats,
+    "compare": split_oracles,
+    "shrinkable": "universe",
+    "signature": lambda lines, item: re.sub(r"\[[^\]]*\]", "[..]", re.sub(r"\d+", "N", str(item.get("oracle") or item.get("model"))))[:120],
+}
+
+FAMILIES["solve"] = dict(SOLVE_FAMILY, rule="generated provider universes (1-8 packages, 1-9 candidates each, sparse/shuffled ids, version sets any/one/prefix/suffix/empty/random, "
+    "unions incl. cross-package and repeated members, constrains incl. own package, locks, favored, exclusions, Unknown deps, missing packages, cycles, all hint patterns) "
+    "in 3 shapes (general/tight/hinted), sync runtime; non-trivial = the run learnt a clause, or ended Unsolvable, or made >= 4 assignments; distinct by sha256 of the case")
+FAMILIES["soft"] = dict(SOLVE_FAMILY, rule="as `solve` plus 1-4 soft requirements drawn from all solvables (compatible, incompatible, duplicates, other versions of installed packages, excluded, locked-out, Unknown deps)")
+FAMILIES["conflictfree"] = dict(SOLVE_FAMILY, rule="as `solve` without locks/exclusions/Unknown/missing packages, biased to version sets matching everything, with favored candidates; "
+    "non-trivial additionally requires the preferred candidates to be mutually compatible (C07 hypothesis, decided by the driver)")
+
 TB_COMMON = []
 
 PROPS = {
